@@ -618,6 +618,6 @@ class EncodeCatRows(Filter[Iterable[Union[Any,Dense,Sparse]], Iterable[Union[Any
                 if is_nums:
                     catset(row,catkeys)
                 else:
-                    for k in catkeys: catset(row,k)
+                    for k in catkeys: catset(row,k if isinstance(k,list) else [k])
 
                 yield row
